@@ -261,13 +261,15 @@ def main(tier):
     for f in sorted(prog.funcs, key=lambda x: (x.file, x.line)):
         if f.cls != "KrigingSystem" or f.body is None or f.usr not in pub or f.kind != "method":
             continue
+        everywhere = {x["n"] for x in f.walk() if x["k"] == "MemberExpr" and x.get("mk") == "field"}
         for r in f.walk():
             if r["k"] != "Return" or not r.get("c") or r["c"][0] is None:
                 continue
             named = {x["n"] for x in walk(r["c"][0]) if x["k"] == "MemberExpr" and x.get("mk") == "field"}
             hit = sorted(m_ for m_ in named if m_ in owner)
-            through = {p_ for p_ in named if p_ in alts}
-            if not hit and not through:
+            # the mode pointer may be consulted in the return expression or in a test that guards it (function level)
+            through = {p_ for p_ in everywhere if p_ in alts}
+            if not hit and not {p_ for p_ in named if p_ in alts}:
                 continue
             ng += 1
             bad = [m_ for m_ in hit if owner[m_] not in through]
